@@ -39,18 +39,54 @@ def new_check():
                      "temporal placeholders, all time without directory part)"])
 
 
-def exact_file(tpl, files, t):
-    """the file named get_filename(t), by the harness's own rendering"""
+def exact_rel(tpl, t):
+    """relative path get_filename(t) must produce for a single datetime (start = end = t), by the
+    harness's own rendering; None when the code cannot fill the template (user placeholders, '*',
+    {microsecond}: UnfilledPlaceholderError / UnknownPlaceholderError, swallowed by find_closest)"""
     if tpl.users() or tpl.n_stars() or t.year < 1000:
         return None
     if any(tok[0] == "f" and tok[1].endswith("microsecond") for toks in tpl.dir_tokens + [tpl.name_tokens] for tok in toks):
         return None
-    probe = G.File(-1, t, t, {}, [])
-    rel = G.render(tpl, probe)
+    return G.render(tpl, G.File(-1, t, t, {}, []))
+
+
+def exact_file(tpl, files, t):
+    """the file named get_filename(t), by the harness's own rendering"""
+    rel = exact_rel(tpl, t)
+    if rel is None:
+        return None
     for f in files:
         if f.rel == rel:
             return f
     return None
+
+
+def check_exact_name(ck, fs, root, ids, tpl, files, p, case):
+    """ties the `exact` parameter of the model to the code: the real get_filename(t) — called with a
+    SINGLE datetime, as find_closest does — must produce the name the harness renders, and when a
+    file of that name exists its parsed coverage must contain t (for t at name resolution).  This
+    is the premise `ExactOK` of the C16 theorems (C02: format + start round trip)."""
+    t = p["t"]
+    want = exact_rel(tpl, t)
+    try:
+        real = fs.get_filename(t)
+    except Exception as e:  # noqa
+        real = None
+        if want is not None:
+            ck.disagree(f"get_filename({G.iso(t)}) raised {type(e).__name__}, harness renders {'/'.join(want)} on '{tpl.text()}'", case)
+            return
+    if want is None:
+        return
+    ck.count("exact-name checks")
+    wpath = os.path.join(root, *want)
+    if real != wpath:
+        ck.disagree(f"get_filename({G.iso(t)}) = '{os.path.relpath(real, root) if real else real}', harness renders '{'/'.join(want)}' on '{tpl.text()}'", case)
+        return
+    if real in ids and p["onres"]:
+        info = fs.get_info(real)
+        if not (info.times[0] <= t <= info.times[1]):
+            ck.violation("exactname-not-covering", f"the file named get_filename({G.iso(t)}) = {'/'.join(want)} has coverage "
+                         f"[{G.iso(info.times[0])}, {G.iso(info.times[1])}] which does not contain t on '{tpl.text()}'", case)
 
 
 def gen_times(rng, tpl, files, n):
@@ -101,12 +137,14 @@ def dist(f, t):
     return min(abs(f.t0 - t), abs(f.t1 - t))
 
 
-def run_population(ck, rng, scratch, tpl, files, time_cov, probes, use_model=True, tag="gen"):
+def run_population(ck, rng, scratch, tpl, files, time_cov, probes, use_model=True, tag="gen", ddirs=None):
     from typhon.files import FileSet
     from typhon.files.handlers.common import FileHandler
     root = tempfile.mkdtemp(dir=scratch)
     try:
-        ids = G.build_tree(root, tpl, files, rng)
+        if ddirs is None:
+            ddirs = G.decoy_dirs(rng, tpl, files, rng.choice([0, 1, 3]))
+        ids = G.build_tree(root, tpl, files, rng, ddirs=ddirs)
         # empty directories: a rendered directory chain without any file in it
         for p in probes:
             if p.get("emptydir") and tpl.dirs and tpl.is_temporal():
@@ -116,7 +154,7 @@ def run_population(ck, rng, scratch, tpl, files, time_cov, probes, use_model=Tru
         paths_of = {i: p for p, i in ids.items()}
         honour = G.honours(tpl, files)
         base_case = {"op": "closest", "template": tpl.to_json(), "files": [f.to_json() for f in files],
-                     "time_cov_us": None if time_cov is None else time_cov // G.US}
+                     "time_cov_us": None if time_cov is None else time_cov // G.US, "decoy_dirs": ddirs}
         for f in files:
             try:
                 info = fs.get_info(paths_of[f.id])
@@ -149,11 +187,13 @@ def run_population(ck, rng, scratch, tpl, files, time_cov, probes, use_model=Tru
             case = dict(base_case, probe=dict(C1.query_json(dict(p, start=None, end=None)), t=G.iso(t)))
             fs.exclude_files([paths_of[i] for i in p["xnames"]])
             fs.exclude_times(list(p["xtimes"]) or None)
+            check_exact_name(ck, fs, root, ids, tpl, files, p, case)
+            targ = t.isoformat(sep=" ") if p.get("as_str") else t       # the API also takes time strings
             try:
                 if p["via"] == "getitem":
-                    r = fs[t] if p["filters"] is None else fs[t, p["filters"]]
+                    r = fs[targ] if p["filters"] is None else fs[targ, p["filters"]]
                 else:
-                    r = fs.find_closest(t, filters=p["filters"])
+                    r = fs.find_closest(targ, filters=p["filters"])
                 got = "none" if r is None else "ok " + str(ids[os.fspath(r)])
             except Exception as e:  # noqa
                 got = "err " + G.err_class(e)
@@ -203,8 +243,17 @@ def run_population(ck, rng, scratch, tpl, files, time_cov, probes, use_model=Tru
             if out is not None:
                 m = out[pidx[k]].strip()
                 code = "err noFiles" if got == "none" else got
-                if m != code:
+
+                def judged(ans):
+                    # what the property fixes of an answer: covering or not, else the end-point distance
+                    if not ans.startswith("ok "):
+                        return ans
+                    f = byid[int(ans[3:])]
+                    return ("covering",) if f.t0 <= t <= f.t1 else ("nearest", dist(f, t))
+                if judged(m) != judged(code):
                     ck.disagree(f"find_closest({G.iso(t)}): model '{m}' vs code '{got}' on '{tpl.text()}'", case)
+                elif m != code:
+                    ck.count("diagnostic/another-covering-or-equidistant-file")
     finally:
         shutil.rmtree(root, ignore_errors=True)
 
@@ -221,40 +270,50 @@ def gen_probes(rng, tpl, files, n):
                 xn = sorted(set(xn) | {rng.choice(hit).id})
         probes.append({"t": t, "kind": kind, "onres": onres, "filters": C1.gen_filters(rng, tpl, files) if rng.random() < 0.5 else None,
                        "xnames": xn, "xtimes": xt, "via": rng.choice(["find_closest", "find_closest", "getitem"]),
-                       "emptydir": rng.random() < 0.2, "sort": False, "bundle": None, "nferr": True, "only_path": False})
+                       "emptydir": rng.random() < 0.2, "sort": False, "bundle": None, "nferr": True, "only_path": False,
+                       "as_str": rng.random() < 0.15 and 1700 < t.year < 2250})
     return probes
 
 
-def single_cases(ck, rng, scratch, use_model=True):
+def run_single(ck, scratch, case, use_model=True):
+    """find_closest on a single-file fileset described by `case` (also used by --replay)"""
     from typhon.files import FileSet
     root = tempfile.mkdtemp(dir=scratch)
     try:
         p = os.path.join(root, "one.dat")
-        exists = rng.random() < 0.8
+        exists = case["exists"]
         if exists:
             open(p, "w").close()
         fs = FileSet(p)
-        t = G.gen_origin(rng, G.Template([], "{year}.dat"))
+        t = G.from_iso(case["t"])
         try:
-            r = fs.find_closest(t)
-            got = "ok" if os.fspath(r) == p else f"other:{r}"
+            r = fs.find_closest(t.isoformat(sep=" ") if case.get("as_str") else t)
+            got = "ok the-file" if os.fspath(r) == p else f"other:{r}"
         except Exception as e:  # noqa
             got = "err " + G.err_class(e)
-        want = "ok" if exists else "err valueError"
+        want = "ok the-file" if exists else "err valueError"
         ck.case(kind="single/" + got.replace(" ", "-"))
-        case = {"op": "csingle", "exists": exists, "t": G.iso(t)}
         if got != want:
-            ck.violation("other", f"single-file fileset find_closest({G.iso(t)}) = {got}, expected {want}", case)
+            ck.violation("other", f"single-file fileset find_closest({case['t']}) = {got}, expected {want}", case)
         if use_model:
-            m = ck.driver([f"csingle {int(exists)}"])[0]
+            m = ck.driver([f"csingle {int(exists)} {G.us(t)}"])[0]
             if m != got:
                 ck.disagree(f"csingle: model '{m}' vs code '{got}'", case)
     finally:
         shutil.rmtree(root, ignore_errors=True)
 
 
+def single_cases(ck, rng, scratch, use_model=True):
+    t = G.gen_origin(rng, G.Template([], "{year}.dat"))
+    run_single(ck, scratch, {"op": "csingle", "exists": rng.random() < 0.8, "t": G.iso(t),
+                             "as_str": rng.random() < 0.3 and 1700 < t.year < 2250}, use_model)
+
+
 def run_case_json(ck, c, scratch, use_model=True):
     import random
+    if c.get("op") == "csingle":
+        run_single(ck, scratch, c, use_model)
+        return
     if c.get("op") != "closest":
         return
     tpl = G.Template.from_json(c["template"])
@@ -265,7 +324,7 @@ def run_case_json(ck, c, scratch, use_model=True):
         p = C1.query_from_json(o)
         p["t"] = G.from_iso(o["t"])
         probes.append(p)
-    run_population(ck, random.Random(0), scratch, tpl, files, tc, probes, use_model, tag="corpus")
+    run_population(ck, random.Random(0), scratch, tpl, files, tc, probes, use_model, tag="corpus", ddirs=c.get("decoy_dirs") or [])
 
 
 def explore(ck, n, scratch, use_model=True):
@@ -311,10 +370,7 @@ def replay(path):
     ck = new_check()
     scratch = tempfile.mkdtemp(prefix="verif_c16_")
     try:
-        if c.get("op") == "csingle":
-            pass
-        else:
-            run_case_json(ck, c, scratch, use_model=False)
+        run_case_json(ck, c, scratch, use_model=False)
     finally:
         shutil.rmtree(scratch, ignore_errors=True)
     for v in ck.violations:
